@@ -1085,6 +1085,18 @@ func (in *Interp) rangeLoop(s *ast.RangeStmt, ev *env, cur *relang.DFA) (T, F, N
 	body := s.Body.List
 
 	// schema: list builders (an empty []string filled by append in the body)
+	// (a leading `p := strings.Split(x, sep)` statement is the same as the if's init statement)
+	var preInit ast.Stmt
+	if len(body) == 2 {
+		if as, ok := body[0].(*ast.AssignStmt); ok && as.Tok == token.DEFINE && len(as.Lhs) == 1 && len(as.Rhs) == 1 {
+			if ifs, ok := body[1].(*ast.IfStmt); ok && ifs.Init == nil {
+				if sp, ok := ast.Unparen(as.Rhs[0]).(*ast.CallExpr); ok && in.callName(sp) == "strings.Split" {
+					preInit = as
+					body = body[1:]
+				}
+			}
+		}
+	}
 	if len(body) == 1 {
 		if ifs, ok := body[0].(*ast.IfStmt); ok && len(ifs.Body.List) == 1 {
 			dst, arg, spread, isApp := appendOf(ifs.Body.List[0])
@@ -1107,7 +1119,11 @@ func (in *Interp) rangeLoop(s *ast.RangeStmt, ev *env, cur *relang.DFA) (T, F, N
 						d2, a2, sp2, ok2 := appendOf(eb.List[0])
 						// the split expression bound by the if's init statement, if any
 						initName, initSep := "", ""
-						if as, ok := ifs.Init.(*ast.AssignStmt); ok && len(as.Lhs) == 1 && len(as.Rhs) == 1 {
+						initStmt := ifs.Init
+						if initStmt == nil {
+							initStmt = preInit
+						}
+						if as, ok := initStmt.(*ast.AssignStmt); ok && len(as.Lhs) == 1 && len(as.Rhs) == 1 {
 							if id, ok := as.Lhs[0].(*ast.Ident); ok {
 								if sp, ok := ast.Unparen(as.Rhs[0]).(*ast.CallExpr); ok && in.callName(sp) == "strings.Split" && len(sp.Args) == 2 && isIdent(sp.Args[0], x) {
 									if k, ok := in.cstr(sp.Args[1], ev); ok {
@@ -1166,7 +1182,7 @@ func (in *Interp) rangeLoop(s *ast.RangeStmt, ev *env, cur *relang.DFA) (T, F, N
 		}
 	}
 	evE.vars[x] = in.identity()
-	te, fe, ne := in.block(body, evE, in.E.All())
+	te, fe, ne := in.block(s.Body.List, evE, in.E.All())
 	if !te.IsEmpty() {
 		in.fail("loop body returns true")
 	}
